@@ -1,8 +1,10 @@
 import Cppcheck.Model.Wire
 /-
 C36 — model of htmlreport/cppcheck-htmlreport: html_escape, the version-2 result handler, grouping
-by file, and the index rows (exact inner HTML of every `<tr>` of the summary table) and the menu of
-each per-file page.  Strings are `List Char` (python `str`, arbitrary code points).
+by file, the index rows (exact inner HTML of every `<tr>` of the summary table), and of each per-file
+page the menu and the annotations written behind the source lines.  Every piece of output text is a list
+of `Piece`s: fixed template text, or a string of the results file behind one of the encoders.
+Strings are `List Char` (python `str`, arbitrary code points).
 -/
 namespace Cppcheck.Html
 
@@ -110,49 +112,99 @@ def toCssSelector (tag : Str) : Str :=
     | [] => false
   if bad then "cpp".toList ++ v else v
 
-def td (s : Str) : Str := "<td>".toList ++ s ++ "</td>".toList
+/-! ### output text = fixed template text + encoded strings of the results file -/
+
+inductive Piece
+  | lit (s : Str)     -- text of the script's templates
+  | esc (s : Str)     -- `html_escape` of a string taken from the results file
+  | css (s : Str)     -- `to_css_selector` of a string taken from the results file
+  | num (n : Nat)     -- a number, written in decimal (`%d`, `str(int)`)
+  | raw (s : Str)     -- inserted as it is
+  deriving DecidableEq, Repr, Inhabited
+
+def Piece.render : Piece → Str
+  | .lit s => s
+  | .esc s => htmlEscape s
+  | .css s => toCssSelector s
+  | .num n => natStr n
+  | .raw s => s
+
+def render (ps : List Piece) : Str := ps.flatMap Piece.render
+
+def L (s : String) : Piece := .lit s.toList
+
+/-! ### index.html -/
+
+/-- `error['severity']` after the index loop appended `", inconcl."` -/
+def sev0 (e : Err) : Str :=
+  match e.inconclusive with
+  | some v => if v = "true".toList then e.sev ++ ", inconcl.".toList else e.sev
+  | none => e.sev
+
+inductive MsgClass | error | warning | inconclusive
+  deriving DecidableEq, Repr, Inhabited
+
+def MsgClass.name : MsgClass → String
+  | .error => "error" | .warning => "warning" | .inconclusive => "inconclusive"
+
+def messageClass (e : Err) : Option MsgClass :=
+  if sev0 e = "error".toList then some .error
+  else if sev0 e = "warning".toList then some .warning
+  else match e.inconclusive with
+    | some v => if v = "true".toList then some .inconclusive else none
+    | none => none
+
+/-- the severity / classification / guideline columns: in a classification report (`reportType`: some finding of
+    the results file carries a classification) the severity is blanked and a missing classification reads `None` -/
+def shownSeverity (reportType : Bool) (e : Err) : Str := if reportType then [] else sev0 e
+def shownCls (reportType : Bool) (e : Err) : Str :=
+  if reportType then (if e.cls = [] then "None".toList else e.cls) else e.cls
+def shownGuide (reportType : Bool) (e : Err) : Str :=
+  if reportType then (if e.cls = [] then "None".toList else e.guideline) else e.guideline
+
+/-- `is_file`: the group has a file name and the file is neither undecodable nor starred -/
+def isFileGroup (g : Group) (decodeErr : Bool) : Bool :=
+  g.file ≠ [] && !(decodeErr || endsWithStar g.file)
+
+def cweCell (e : Err) : List Piece :=
+  match e.cwe with
+  | some c => if c = [] then [] else
+      [L "<a href=\"https://cwe.mitre.org/data/definitions/", .esc c, L ".html\">", .esc c, L "</a>"]
+  | none => []
+
+/-- the cells of a finding row in front of the message cell, in order: line, id, cwe, [severity],
+    [classification, guideline] -/
+def rowCells (g : Group) (decodeErr reportType : Bool) (e : Err) : List (List Piece) :=
+  [ (if isFileGroup g decodeErr then
+      [L "<a href=\"", .num g.no, L ".html#line-", .num e.line, L "\">", .num e.line, L "</a>"]
+     else []),
+    [.esc e.id],
+    cweCell e ]
+  ++ (if shownSeverity reportType e ≠ [] then [[.esc (shownSeverity reportType e)]] else [])
+  ++ (if shownCls reportType e ≠ [] then [[.esc (shownCls reportType e)], [.esc (shownGuide reportType e)]] else [])
+
+def tdP (c : List Piece) : List Piece := L "<td>" :: c ++ [L "</td>"]
+
+/-- the opening tag of the message cell -/
+def msgOpen (e : Err) : List Piece :=
+  match messageClass e with
+  | some c => [L "<td class=\"", L c.name, L "\">"]
+  | none => [L "<td>"]
 
 /-- one finding row of index.html, exactly as `tr_str('td', …)` writes it (no author columns).
-    `decodeErr` = the file is in `decode_errors`; `reportType` = some finding carries a classification -/
-def rowPre (g : Group) (decodeErr reportType : Bool) (e : Err) : Str :=
-  let fileError := decodeErr || endsWithStar g.file
-  let isFile := g.file ≠ [] && !fileError
-  let sev0 := match e.inconclusive with
-    | some v => if v = "true".toList then e.sev ++ ", inconcl.".toList else e.sev
-    | none => e.sev
-  let messageClass : Option Str :=
-    let m0 := match e.inconclusive with
-      | some v => if v = "true".toList then some "inconclusive".toList else none
-      | none => none
-    if sev0 = "error".toList || sev0 = "warning".toList then some sev0 else m0
-  let cweUrl : Str := match e.cwe with
-    | some c => if c = [] then [] else
-        "<a href=\"https://cwe.mitre.org/data/definitions/".toList ++ htmlEscape c ++ ".html\">".toList ++ htmlEscape c ++ "</a>".toList
-    | none => []
-  let severity := if reportType then [] else sev0
-  let cls := if reportType then (if e.cls = [] then "None".toList else e.cls) else e.cls
-  let guide := if reportType then (if e.cls = [] then "None".toList else e.guideline) else e.guideline
-  let items : List Str := [htmlEscape e.id, cweUrl]
-    ++ (if severity ≠ [] then [htmlEscape severity] else [])
-    ++ (if cls ≠ [] then [htmlEscape cls, htmlEscape guide] else [])
-  let lineS := natStr e.line
-  let cells : Str :=
-    if isFile then
-      td ("<a href=\"".toList ++ natStr g.no ++ ".html#line-".toList ++ lineS ++ "\">".toList ++ lineS ++ "</a>".toList)
-        ++ (items.map td).flatten
-    else
-      (([] : Str) :: items).map td |>.flatten
-  let msgOpen := match messageClass with
-    | some c => "<td class=\"".toList ++ c ++ "\">".toList
-    | none => "<td>".toList
-  let trClass := toCssSelector e.id ++ " sev_".toList ++ htmlEscape severity ++ " class_".toList ++ htmlEscape cls ++ " issue".toList
-  "<tr class=\"".toList ++ trClass ++ "\">".toList ++ cells ++ msgOpen
-
-def rowPost (timestamp : Str) : Str :=
-  "</td>".toList ++ (if timestamp = [] then [] else td timestamp) ++ "</tr>".toList
+    `decodeErr` = the file is in `decode_errors`; `reportType` = some finding carries a classification;
+    `timestamp` = `time.ctime` of the results file (not a string of the results file) -/
+def rowPieces (g : Group) (decodeErr reportType : Bool) (timestamp : Str) (e : Err) : List Piece :=
+  [L "<tr class=\"", .css e.id, L " sev_", .esc (shownSeverity reportType e), L " class_",
+   .esc (shownCls reportType e), L " issue\">"]
+  ++ (rowCells g decodeErr reportType e).flatMap tdP
+  ++ msgOpen e
+  ++ [.esc e.msg, L "</td>"]
+  ++ (if timestamp = [] then [] else [L "<td>", .raw timestamp, L "</td>"])
+  ++ [L "</tr>"]
 
 def rowHtml (g : Group) (decodeErr reportType : Bool) (timestamp : Str) (e : Err) : Str :=
-  rowPre g decodeErr reportType e ++ htmlEscape e.msg ++ rowPost timestamp
+  render (rowPieces g decodeErr reportType timestamp e)
 
 structure Row where
   group : Group
@@ -163,19 +215,94 @@ def indexRows (es : List Err) : List Row :=
   (sortedGroups es).flatMap fun g => (sortedErrs g).map fun e => ⟨g, e⟩
 
 /-- the file header row of a group -/
-def fileRowHtml (g : Group) (decodeErr : Bool) : Str :=
-  let fileError := decodeErr || endsWithStar g.file
-  let content := if fileError then htmlEscape g.file
-    else "<a href=\"".toList ++ htmlEscape (natStr g.no ++ ".html".toList) ++ "\">".toList ++ htmlEscape g.file ++ "</a>".toList
-  "<tr><td colspan=\"6\">".toList ++ content ++ "</td></tr>".toList
+def fileRowPieces (g : Group) (decodeErr : Bool) : List Piece :=
+  [L "<tr><td colspan=\"6\">"]
+  ++ (if decodeErr || endsWithStar g.file then [.esc g.file]
+      else [L "<a href=\"", .num g.no, L ".html\">", .esc g.file, L "</a>"])
+  ++ [L "</td></tr>"]
 
-/-- entries of the per-file page menu: one per location of the group's findings that lies in the file -/
+def fileRowHtml (g : Group) (decodeErr : Bool) : Str := render (fileRowPieces g decodeErr)
+
+/-! ### per-file pages -/
+
+/-- entries of a per-file page: one per location of the group's findings that lies in the file -/
 def pageLocs (g : Group) : List (Err × Loc) :=
   g.errs.flatMap fun e => (e.locs.filter (fun l => l.file = g.file)).map fun l => (e, l)
 
-def menuHtml (g : Group) : Str :=
-  ((stableSort (fun (a b : Err × Loc) => a.2.line < b.2.line) (pageLocs g)).map fun p =>
-    "<a href=\"".toList ++ natStr g.no ++ ".html#line-".toList ++ natStr p.2.line ++ "\"> ".toList
-      ++ htmlEscape p.1.id ++ " ".toList ++ natStr p.2.line ++ "</a>".toList).flatten
+def menuEntryPieces (g : Group) (p : Err × Loc) : List Piece :=
+  [L "<a href=\"", .num g.no, L ".html#line-", .num p.2.line, L "\"> ", .esc p.1.id, L " ", .num p.2.line, L "</a>"]
+
+def menuPieces (g : Group) : List Piece :=
+  (stableSort (fun (a b : Err × Loc) => a.2.line < b.2.line) (pageLocs g)).flatMap (menuEntryPieces g)
+
+def menuHtml (g : Group) : Str := render (menuPieces g)
+
+/-- `newError`: the copy of a finding made for one of its locations in the file; a location with a non-empty
+    `info` shows that info instead of the message and loses the verbose text -/
+structure PageErr where
+  err : Err
+  line : Nat
+  msg : Str
+  verbose : Option Str
+  deriving DecidableEq, Repr, Inhabited
+
+def pageEntry (p : Err × Loc) : PageErr :=
+  match p.2.info with
+  | some i => if i = [] then ⟨p.1, p.2.line, p.1.msg, p.1.verbose⟩ else ⟨p.1, p.2.line, i, none⟩
+  | none => ⟨p.1, p.2.line, p.1.msg, p.1.verbose⟩
+
+def pageErrs (g : Group) : List PageErr := (pageLocs g).map pageEntry
+
+/-- `verbose.replace("\\012", '\n')` -/
+def replace012 : Str → Str
+  | '\\' :: '0' :: '1' :: '2' :: r => '\n' :: replace012 r
+  | c :: r => c :: replace012 r
+  | [] => []
+
+/-- `error.get('verbose') and error['verbose'] != error['msg']` -/
+def PageErr.expandable (p : PageErr) : Option Str :=
+  match p.verbose with
+  | some v => if v ≠ [] ∧ v ≠ p.msg then some v else none
+  | none => none
+
+/-- the text `AnnotateCodeFormatter.wrap` puts behind a source line for one page entry (`none`: nothing - the
+    `inconclusive` attribute is present but is not `true`), and whether it is the expandable form, which
+    replaces only the LAST newline of the highlighted line while the plain form replaces every newline -/
+def annotPieces (p : PageErr) : Option (Bool × List Piece) :=
+  let cls : Option String :=
+    match p.err.inconclusive with
+    | some v => if v = "true".toList then some "inconclusive2" else none
+    | none => some "error2"
+  match cls with
+  | none => none
+  | some c =>
+    match p.expandable with
+    | some v => some (true,
+        [L "<div class=\"verbose expandable\"><span class=\"", L c, L "\">&lt;--- ", .esc p.msg,
+         L " <span class=\"marker\">[+]</span></span><div class=\"content\">", .esc (replace012 v), L "</div></div>\n"])
+    | none => some (false, [L "<span class=\"", L c, L "\">&lt;--- ", .esc p.msg, L "</span>\n"])
+
+/-- `t.replace('\n', x)` -/
+def replaceNl (t x : Str) : Str := t.flatMap fun c => if c = '\n' then x else [c]
+
+/-- `index = t.rfind('\n'); t[:index] + x + t[index + 1:]` (python slicing: `rfind` = -1 drops the last character
+    in front and keeps the whole text behind) -/
+def replaceLastNl (t x : Str) : Str :=
+  match t.reverse.idxOf? '\n' with
+  | some k => t.take (t.length - 1 - k) ++ x ++ t.drop (t.length - k)
+  | none => t.dropLast ++ x ++ t
+
+/-- the highlighted source line `t` (pygments' HTML for it, ending in a newline) after the loop over the page
+    entries of that line, in page order (NOT sorted) -/
+def annotateLine (t : Str) (ps : List PageErr) : Str :=
+  ps.foldl (fun t p =>
+    match annotPieces p with
+    | none => t
+    | some (true, x) => replaceLastNl t (render x)
+    | some (false, x) => replaceNl t (render x)) t
+
+/-- what is written behind line `n` of the page of group `g` (the highlighted line itself taken as a bare newline) -/
+def lineAnnot (g : Group) (n : Nat) : Str :=
+  annotateLine ['\n'] ((pageErrs g).filter fun p => p.line = n)
 
 end Cppcheck.Html
